@@ -23,6 +23,11 @@ struct Verdicts {
     Verdicts(const gen::GGraph &gg, RunResult &r, const std::string &prop) : gg(gg), r(r) {
         og = gen::to_oracle(gg, &shift);
         r.detail["domain"] = gg.inexact ? "inexact" : "exact";
+        // reach: input sizes beyond the constants (32, 64, 100, 256, ...) an implementation may hard-code
+        if (gg.n > 32) r.fired["input_n_gt32"]++;
+        if (gg.n > 64) r.fired["input_n_gt64"]++;
+        if (gg.m() > 64) r.fired["input_m_gt64"]++;
+        if (gg.m() > 100) r.fired["input_m_gt100"]++;
         if (prop == "C01") groups = { "basis" };
         else if (prop == "C02") groups = { "retval", "opt" };
         else if (prop == "C05") groups = { "basis", "retval" };
@@ -49,6 +54,8 @@ struct Verdicts {
         int dim = orc::cycle_space_dim(og);
         r.dkey = sim::mix64(gen::graph_hash(gg), sim::fnv_str(r.entry + "/" + std::to_string(approx ? k : 0)));
         r.detail["dim"] = dim;
+        if (dim > 32) r.fired["input_dim_gt32"]++;
+        if (dim > 64) r.fired["input_dim_gt64"]++;
         // ---------------------------------------------------------------- basis
         bool basis_ok = false;
         if (stale) flag("basis", "stale_descriptor", "an emitted edge descriptor refers to a released edge slot");
